@@ -17,21 +17,23 @@ const ModPath = "github.com/onosproject/onos-config"
 
 // Engine holds the loaded program and the contracts.
 type Engine struct {
-	RepoDir  string
-	Prog     *ssa.Program
-	Pkgs     []*packages.Package
-	SSAPkgs  map[string]*ssa.Package
-	TypPkgs  map[string]*types.Package
-	CS       *ContractSet
-	layouts  map[string][]Leaf
-	tags     map[string]int
-	tagTypes []types.Type
-	tagByID  map[int]types.Type
-	fnIDs    map[*ssa.Function]int
-	globIDs  map[*ssa.Global]int
-	funcsByKey map[string]*ssa.Function
-	Overlay  map[string][]byte
-	LoadErrs []string
+	RepoDir       string
+	Prog          *ssa.Program
+	Pkgs          []*packages.Package
+	SSAPkgs       map[string]*ssa.Package
+	TypPkgs       map[string]*types.Package
+	CS            *ContractSet
+	layouts       map[string][]Leaf
+	tags          map[string]int
+	tagTypes      []types.Type
+	tagByID       map[int]types.Type
+	regexpGlobals map[*ssa.Global]string
+	nonNilGlobals map[*ssa.Global]string
+	fnIDs         map[*ssa.Function]int
+	globIDs       map[*ssa.Global]int
+	funcsByKey    map[string]*ssa.Function
+	Overlay       map[string][]byte
+	LoadErrs      []string
 }
 
 // Load loads /repo's current working tree (with -tags=verif) and builds SSA.
@@ -79,6 +81,7 @@ func Load(repoDir string, overlay map[string][]byte, patterns ...string) (*Engin
 		e.funcsByKey[fn.String()] = fn
 	}
 	e.tagTypes = append(e.tagTypes, nil) // tag 0 = nil interface
+	e.scanRegexpGlobals()
 	return e, nil
 }
 
@@ -234,4 +237,3 @@ func (e *Engine) FunctionsUnderContract() []string {
 	sort.Strings(out)
 	return out
 }
-
